@@ -18,7 +18,16 @@ def chars(s):
     return [ord(c) for c in s]
 
 
+def _attrs(c):
+    return (tuple((int(t), bytes(v)) for t, v in c.description.items()), bytes(c.blob), c.actual_len, bool(c.encrypt_by_session_key))
+
+
 def proj_comp(c):
+    # a component made by mk_comp and not edited since is projected from the ARGUMENTS of its constructor (the content the
+    # caller handed over), not from what the constructor stored: a constructor that alters the content must not vouch for itself
+    it = getattr(c, "_verif_intent", None)
+    if it is not None and _attrs(c) == it[1]:
+        return dict(it[0])
     return {"desc": [[int(t), B(v)] for t, v in c.description.items()], "blob": B(c.blob),
             "alen": int(c.actual_len), "enc": bool(c.encrypt_by_session_key)}
 
@@ -36,7 +45,44 @@ def exc_info(e):
 
 
 def mk_comp(desc, blob, alen=None, enc=False):
-    return Bf3Component(dict(desc), bytes(blob), alen, enc)
+    c = Bf3Component(dict(desc), bytes(blob), alen, enc)
+    intent = {"desc": [[int(t), B(v)] for t, v in desc.items()], "blob": B(blob), "alen": int(alen or len(blob)), "enc": bool(enc)}
+    try:
+        c._verif_intent = (intent, _attrs(c))
+    except Exception:                                     # noqa: BLE001 -- e.g. __slots__: fall back to the stored attributes
+        pass
+    return c
+
+
+def reformat(r, text, mode=None):
+    """The same file in another legal text layout of the hex part (the reader removes white space and the separators
+    , - . / : and accepts both cases): lower / mixed case, other line widths (odd ones too), separators between bytes."""
+    idx = 0
+    while True:
+        nl = text.find("\n", idx)
+        if nl < 0:
+            return text
+        if nl == idx:
+            break
+        idx = nl + 1
+    head, digits = text[:idx + 1], "".join(text[idx + 1:].split())
+    mode = mode or r.choice(["lower", "mixed", "width", "seps", "oneline", "crlf"])
+    eol = "\n"
+    if mode == "lower":
+        digits, w = digits.lower(), 80
+    elif mode == "mixed":
+        digits, w = "".join(ch.lower() if r.random() < 0.5 else ch for ch in digits), 80
+    elif mode == "width":
+        w = r.choice([1, 2, 7, 64, 75, 81, 160])
+    elif mode == "oneline":
+        w = max(1, len(digits))
+    elif mode == "crlf":
+        w, eol = 80, "\r\n"
+    else:
+        sep = r.choice([" ", ",", "-", ".", "/", ":", "\t", " : "])
+        digits = sep.join(digits[i:i + 2] for i in range(0, len(digits), 2))
+        w = 16 * (2 + len(sep))
+    return head + "".join(digits[i:i + w] + eol for i in range(0, len(digits), w))
 
 
 # ----------------------------------------------------------------- generators
